@@ -103,6 +103,39 @@ def rule_parse_twins(ctx):
             ctx.ok(site(cf, bi), "%s: pattern_atoms(text) → Atom::parse(word, case, normalization) → drop empty needles (%s)" % (parent.rsplit("::", 1)[1], " → ".join(st[0] for st in stages)))
         else:
             ctx.violation(key, site(cf, bi), "%s pipeline deviates (args in order %s, captures are the caller's parameters %s, empty-needle filter %s, source is pattern_atoms(text) %s, truncating stages %s): reparse and parse can produce different atoms" % (parent, okargs, cap_ok, filt, src_ok, trunc))
+    # every call of parse / reparse runs the pipeline: a return that skips it leaves the atoms of an EARLIER text in
+    # place.  Skipping is only the identity when the new text is literally the old one, so the only acceptable
+    # early-return guard compares the raw `pattern` parameter itself for equality (not a trimmed / hashed / length key)
+    for parent in ("pattern::Pattern::parse", "pattern::Pattern::reparse"):
+        pf = get_fn(facts, M, parent)
+        pl = atoms_pipeline(facts, pf)
+        if pl is None:
+            continue
+        sink = pl[0]
+        if pf.all_paths_to_return_pass(0, via_nodes=[sink]):
+            ctx.ok(site(pf, sink), "%s: every return lies behind the atom pipeline" % parent.rsplit("::", 1)[1])
+            continue
+        # blocks from which a return is reachable without the sink: look at what guards them
+        skip = pf.reach_from(0, removed_nodes=[sink])
+        rets = [bi for bi in skip if pf.blocks[bi]["term"]["k"] == "return"]
+        text_l = [l for l in range(1, pf.arg_count + 1) if pf.names.get(l) == "pattern"]
+        raw_eq = False
+        for rb in rets:
+            for g in guards_of(pf, rb):
+                e = g[3]
+                if e[0] == "call" and (str(e[1]).endswith("::eq") or "PartialEq" in str(e[1])) and g[2] != [0]:
+                    for side in e[2]:
+                        x = peel(side)
+                        while x[0] in ("ref", "deref"):
+                            x = peel(x[1])
+                        if x[0] == "arg" and text_l and x[1] == text_l[0]:
+                            raw_eq = True
+        if raw_eq:
+            ctx.ok(site(pf, sink), "%s skips the pipeline only when the text parameter itself equals the stored text" % parent.rsplit("::", 1)[1])
+        else:
+            ctx.violation("%s|pipeline|skipped" % parent, site(pf, rets[0] if rets else 0),
+                          "%s can return without running pattern_atoms → Atom::parse, under a condition that is not `the text parameter equals the previous text`: two texts "
+                          "that the grammar distinguishes (`x\\` and `x\\ `: an escaped trailing space) share the key and the atoms of the earlier one are kept" % parent)
     # reparse clears before extending
     rp = get_fn(facts, M, "pattern::Pattern::reparse")
     clr = [bi for bi, t in rp.calls(lambda t: callee(t).endswith("Vec::<T, A>::clear"))]
